@@ -10,7 +10,7 @@ theorem step_wa_cur (s t : St) (h : Step s t) (c : CInv s) (ct : CInv t) (inv : 
   | call i w hi hp => pw
   | retClosed i w hi hp hk hc => pw
   | retPerErr i w hi hp hk hc => pw
-  | lock i w hi hp hk ht =>
+  | lock i w g hi hp hk ht =>
     have nh := no_holder s c ht
     have nw := no_wa_of_token_false s c ht
     pw
@@ -23,18 +23,18 @@ theorem step_wa_cur (s t : St) (h : Step s t) (c : CInv s) (ct : CInv t) (inv : 
     intro a x hx hh; exact absurd hh (nw a x hx)
   | flushOk j l m o lim hj hp => pw
   | flushFail j l m o hj hp => pw
-  | recvAccept i j w l m hj hi hp hm hl' hq hk hwm hsz => pw
+  | recvAccept i j w l m g hj hi hp hm hl' hq hk hwm hsz => pw
   | reply i j w l m o hj hi hp hq => pw
   | recvOverflow i j w l m hj hi hp hm hl' hq hk hwm hsz => pw
   | mergeDone j l m o hj hp => pw
   | journalOk j l m o hj hp => pw
   | journalFail j l m o hj hp => pw
   | apply j l m o hj hp => pw
-  | publish j l m o rot hj hp => cases rot <;> pw
+  | publish j l m o rot hj hp hrot => cases rot <;> pw
   | rotateOk j l m o hj hp => pw
   | rotateFail j l m o hj hp => pw
   | ack i j w l k m o r hj hi hp hq => pw
-  | handoff i j w l m r hj hi hp hq =>
+  | handoff i j w l m r g hj hi hp hq hc =>
     have hil := (List.getElem?_eq_some_iff.mp hi).1
     have hti : (set2 s.ws j (l.setPc (.returned r)) i w.asLeader)[i]? = some w.asLeader := by
       simp [set2, hil]
@@ -52,6 +52,7 @@ theorem step_wa_cur (s t : St) (h : Step s t) (c : CInv s) (ct : CInv t) (inv : 
   | release j l m r hj hp =>
     have nw := no_wa_of_token_false _ ct rfl
     intro a x hx hh; exact absurd hh (nw a x hx)
+  | releaseLost j l m r hj hp hc hr => exact absurd c.cfgH (by simp [hc])
 
 theorem step_member (s t : St) (h : Step s t) (c : CInv s) (ct : CInv t) (inv : PInv s) :
     ∀ (i : Nat) (w : Thread) (j : Nat), t.ws[i]? = some w → w.acc = some j →
@@ -61,7 +62,7 @@ theorem step_member (s t : St) (h : Step s t) (c : CInv s) (ct : CInv t) (inv : 
   | call i w hi hp => pwm
   | retClosed i w hi hp hk hc => pwm
   | retPerErr i w hi hp hk hc => pwm
-  | lock i w hi hp hk ht =>
+  | lock i w g hi hp hk ht =>
     have nh := no_holder s c ht
     have nw := no_wa_of_token_false s c ht
     pwm
@@ -72,19 +73,20 @@ theorem step_member (s t : St) (h : Step s t) (c : CInv s) (ct : CInv t) (inv : 
   | hRelease i w hi hp hk => pwm
   | flushOk j l m o lim hj hp => pwm
   | flushFail j l m o hj hp => pwm
-  | recvAccept i j w l m hj hi hp hm hl' hq hk hwm hsz => pwm
+  | recvAccept i j w l m g hj hi hp hm hl' hq hk hwm hsz => pwm
   | reply i j w l m o hj hi hp hq => pwm
   | recvOverflow i j w l m hj hi hp hm hl' hq hk hwm hsz => pwm
   | mergeDone j l m o hj hp => pwm
   | journalOk j l m o hj hp => pwm
   | journalFail j l m o hj hp => pwm
   | apply j l m o hj hp => pwm
-  | publish j l m o rot hj hp => cases rot <;> pwm
+  | publish j l m o rot hj hp hrot => cases rot <;> pwm
   | rotateOk j l m o hj hp => pwm
   | rotateFail j l m o hj hp => pwm
   | ack i j w l k m o r hj hi hp hq => pwm
-  | handoff i j w l m r hj hi hp hq => pwm
+  | handoff i j w l m r g hj hi hp hq hc => pwm
   | release j l m r hj hp => pwm
+  | releaseLost j l m r hj hp hc hr => exact absurd c.cfgH (by simp [hc])
 
 theorem step_flags (s t : St) (h : Step s t) (c : CInv s) (ct : CInv t) (inv : PInv s) :
     ∀ (i : Nat) (w : Thread), t.ws[i]? = some w → w.pc ≠ .idle →
@@ -94,7 +96,7 @@ theorem step_flags (s t : St) (h : Step s t) (c : CInv s) (ct : CInv t) (inv : P
   | call i w hi hp => pw
   | retClosed i w hi hp hk hc => pw
   | retPerErr i w hi hp hk hc => pw
-  | lock i w hi hp hk ht =>
+  | lock i w g hi hp hk ht =>
     have nh := no_holder s c ht
     have nw := no_wa_of_token_false s c ht
     pw
@@ -105,19 +107,20 @@ theorem step_flags (s t : St) (h : Step s t) (c : CInv s) (ct : CInv t) (inv : P
   | hRelease i w hi hp hk => pw
   | flushOk j l m o lim hj hp => pw
   | flushFail j l m o hj hp => pw
-  | recvAccept i j w l m hj hi hp hm hl' hq hk hwm hsz => pw
+  | recvAccept i j w l m g hj hi hp hm hl' hq hk hwm hsz => pw
   | reply i j w l m o hj hi hp hq => pw
   | recvOverflow i j w l m hj hi hp hm hl' hq hk hwm hsz => pw
   | mergeDone j l m o hj hp => pw
   | journalOk j l m o hj hp => pw
   | journalFail j l m o hj hp => pw
   | apply j l m o hj hp => pw
-  | publish j l m o rot hj hp => cases rot <;> pw
+  | publish j l m o rot hj hp hrot => cases rot <;> pw
   | rotateOk j l m o hj hp => pw
   | rotateFail j l m o hj hp => pw
   | ack i j w l k m o r hj hi hp hq => pw
-  | handoff i j w l m r hj hi hp hq => pw
+  | handoff i j w l m r g hj hi hp hq hc => pw
   | release j l m r hj hp => pw
+  | releaseLost j l m r hj hp hc hr => exact absurd c.cfgH (by simp [hc])
 
 theorem step_pinv (s t : St) (h : Step s t) (c : CInv s) (inv : PInv s) : PInv t :=
   have ct := step_cinv s t h c
@@ -125,7 +128,7 @@ theorem step_pinv (s t : St) (h : Step s t) (c : CInv s) (inv : PInv s) : PInv t
    step_member s t h c ct inv, step_flags s t h c ct inv⟩
 
 theorem init_pinv (s : St) (h : Init s) : PInv s := by
-  obtain ⟨ht, hc, hw⟩ := h
+  obtain ⟨_, ht, hc, hw⟩ := h
   have hf : ∀ (i : Nat) (w : Thread), s.ws[i]? = some w → w.fresh :=
     fun i w hi => hw w (List.mem_of_getElem? hi)
   refine ⟨?_, ?_, ?_, ?_, ?_⟩
